@@ -22,6 +22,14 @@ around the value.  The expected value is computed by the harness from the STORED
 rule of C12 applied to each earlier constant in turn: a character is its code point); the earlier constants of the returned
 model are judged as well ("soft_env").  One case in three is a service: the section under test is the request or the
 response, the other section declares constants of the SAME names with other values (a lookup never crosses `---`).
+Placement family ("lay"): the rule of C12 holds WHEREVER the constant statement stands and HOWEVER the text ends - attribute
+statements are committed lazily (by the next statement, an empty line, or the end of the text), so a constant that nothing
+follows takes another path through the reader than one in the middle.  One case in four of the general / character families
+is written as `<type> X = <initialiser>` at the first / middle / last position of its section (message, request or response
+section of a service - last in the request section means right before `---`), and the text ends in every way a text can end:
+final newline, none, trailing blanks, trailing comment (also an empty one `#`), each with and without the final newline,
+CR LF line ends with and without the last one.  A compliant initialiser must be IN the returned model (section under test)
+with the stored value, a non-compliant one must be rejected.
 Second route (`soft_ctor`): the value the initialiser denotes (computed by the harness) is handed to the public
 constructors `Constant(<Type>(width, cast mode), "X", String / Rational / Boolean / Set)`; the same rule must hold there.
 """
@@ -456,6 +464,73 @@ def _try_eval(tree, env):
         return None
 
 
+
+# ------------------------------------------------------------------------------------------------ placement of the statement
+#
+# Where the constant statement stands in its section and how the text ends.  The lazily committed attribute is flushed by
+# whatever follows it; when nothing follows, by the end of the text - every ending is a path of its own.
+
+LAY_SHARE = 0.25
+LAY_POS = ["first", "middle", "last"]
+LAY_ENDS = {  # name -> (what follows the last statement on its line, end-of-line sequence, final end-of-line written?)
+    "newline": ("", "\n", True),
+    "none": ("", "\n", False),
+    "blanks": ("  ", "\n", False),
+    "tab": ("\t", "\n", False),
+    "blanks-newline": (" \t ", "\n", True),
+    "comment": (" # doc", "\n", False),
+    "comment-newline": (" # doc", "\n", True),
+    "empty-comment": (" #", "\n", False),
+    "empty-comment-newline": ("#", "\n", True),
+    "crlf": ("", "\r\n", True),
+    "crlf-none": ("", "\r\n", False),
+    "crlf-blanks": (" ", "\r\n", False),
+    "two-newlines": ("", "\n", True),   # an empty line behind the last statement
+}
+LAY_SVC = [None, None, "request", "response"]
+
+
+def gen_lay(rng: random.Random) -> dict:
+    return {"pos": rng.choice(LAY_POS + ["last"]), "end": rng.choice(sorted(LAY_ENDS)), "svc": rng.choice(LAY_SVC),
+            "filler": rng.choice(["field", "field", "const", "pad"])}
+
+
+def lay_text(case) -> str:
+    """The definition text of a case with a placement: the statement under test at the given position of its section."""
+    lay = case["lay"]
+    ty = case["ctx"][1]
+    stmt = "%s X = %s" % (ty[-1] if ty[0] != "bool" else "bool", case["text"])
+    filler = {"field": "uint8 f", "const": "uint8 F = 1", "pad": "void8"}[lay.get("filler") or "field"]
+    sec = {"first": [stmt, filler, "@sealed"], "middle": [filler, stmt, "@sealed"], "last": [filler, "@sealed", stmt]}[lay["pos"]]
+    other = ["uint16 g", "@sealed"]
+    svc = lay.get("svc")
+    lines = sec if not svc else sec + ["---"] + other if svc == "request" else other + ["---"] + sec
+    tail, eol, final = LAY_ENDS[lay["end"]]
+    text = eol.join(lines) + tail + (eol if final else "")
+    if lay["end"] == "two-newlines":
+        text += eol
+    return text
+
+
+def observe_lay(case) -> dict:
+    """As expr.observe_impl for a constant; the constant must be in the section it was written in."""
+    pydsdl = common.import_pydsdl()
+    types, _printed, ex, f = X.run_definition(lay_text(case))
+    if ex is not None:
+        out = X.classify_exception(pydsdl, ex, f)
+        out["rt"] = True
+        return out
+    t = types[0]
+    svc = case["lay"].get("svc")
+    if svc:
+        t = t.request_type if svc == "request" else t.response_type
+    found = [c for c in t.constants if c.name == "X"]
+    if len(found) != 1:
+        return {"err": "constant-not-in-model", "rt": True,
+                "soft_msg": "the definition was accepted, the constants of the returned model are %s" % [str(c) for c in t.constants]}
+    return {"v": X.canon_raw(X.from_expression_value(pydsdl, found[0].value)), "rt": True}
+
+
 def gen_case(rng: random.Random) -> dict:
     for _ in range(50):
         x = rng.random()
@@ -484,6 +559,8 @@ def gen_case(rng: random.Random) -> dict:
             case["text"], case["style"] = X.render(tree, rng, 0.0, rng.choice([0.0, 0.5, 1.0])), "minimal"
         else:
             case["text"], case["style"] = X.render(tree, rng, 0.3, rng.choice([0.0, 0.5])), "redundant"
+        if rng.random() < LAY_SHARE and "\n" not in case["text"] and "\r" not in case["text"]:
+            case["lay"] = gen_lay(rng)
         return case
     raise RuntimeError("generator stuck")
 
@@ -687,6 +764,11 @@ class ConstSuite(X.ExprSuite):
                 out = observe_refer(case)
             except Exception as ex:  # harness-side problem: visible as a disagreement, never a crash
                 out = {"err": "harness:" + type(ex).__name__, "soft_msg": str(ex)[:300], "rt": True}
+        elif case.get("lay"):
+            try:
+                out = observe_lay(case)
+            except Exception as ex:  # harness-side problem: visible as a disagreement, never a crash
+                out = {"err": "harness:" + type(ex).__name__, "soft_msg": str(ex)[:300], "rt": True}
         else:
             out = super().run_impl(case)
         try:
@@ -707,6 +789,10 @@ class ConstSuite(X.ExprSuite):
             what = "after the constants [%s]%s: expression" % (
                 "; ".join("%s %s = %s" % (it[1][-1], it[0], it[3]) for it in case["env"]),
                 " (%s section of a service)" % case["svc"]["section"] if case.get("svc") else "")
+        if case.get("lay"):
+            lay = case["lay"]
+            what = "constant statement at the %s position of %s, text ending with %s (%r): expression" % (
+                lay["pos"], "the %s section of a service" % lay["svc"] if lay.get("svc") else "a message", lay["end"], lay_text(case)[-40:])
         v = judge(status, val, impl, what, case["text"])
         if v is None and impl.get("soft_ctor") is not None:
             v = judge(status, val, impl["soft_ctor"], "constructors: Constant(%s, 'X', value of" % ty[-1], case["text"])
@@ -731,6 +817,12 @@ class ConstSuite(X.ExprSuite):
         return super().compare(case, impl, model, prop)
 
     def shrink(self, case):
+        if case.get("lay"):
+            yield {k: v for k, v in case.items() if k != "lay"}
+            lay = case["lay"]
+            for k, simple in (("svc", None), ("filler", "field"), ("end", "none"), ("end", "newline"), ("pos", "middle")):
+                if lay.get(k) != simple:
+                    yield dict(case, lay=dict(lay, **{k: simple}))
         if case.get("svc"):
             yield {k: v for k, v in case.items() if k != "svc"}
             if case["svc"]["decoy"]:
@@ -752,6 +844,11 @@ class ConstSuite(X.ExprSuite):
             yield "family:" + case["fam"]
         if case.get("fam") == "refer":
             yield from refer_features(case)
+        if case.get("lay"):
+            lay = case["lay"]
+            yield "placement:%s:%s" % (lay["pos"], lay.get("svc") or "message")
+            yield "placement-end:%s:%s" % (lay["pos"], lay["end"])
+            yield "placement-outcome:%s:%s" % ("last" if lay["pos"] == "last" else "not-last", "accepted" if "v" in impl else str(impl.get("err")))
         for t in X.walk(case["tree"]):
             if t[0] == "str" and t[2] is not None:
                 yield "string:" + char_class_of(t[2]) + ("/uint8" if ty[0] == "uint" and ty[1] == 8 else "/other-type")
